@@ -77,7 +77,7 @@ pub fn run_c02(cx: &Ctx) -> i32 {
 }
 
 pub fn run_c15(cx: &Ctx) -> i32 {
-    let k = if cx.quick() { 4 } else { 5 };
+    let k = if cx.quick() { 5 } else { 6 };
     let mut atoms = vec![
         frmc_core::ast::lit("a"),
         frmc_core::ast::lit("b"),
